@@ -197,6 +197,21 @@ def drive_random(cs, scn, rec, seed, nsteps, modes, genstep_frac=0.3, reset_frac
                 or (ev.get("ev") == "step" and (ev["term"] and rng.random() < 0.5)):
             rec.reset(e)
             fresh[e] = True
+    if extras and not record_draws and not lockstep:
+        # copy.deepcopy(environment) in the middle of an episode; parent and copy go on, interleaved
+        for (e0, e2) in [(eids[0], len(eids) + 1)]:
+            ev = rec.fork(e0, e2)
+            if ev.get("ev") != "fork":
+                continue
+            jm = 0
+            for t in range(40):
+                ee = (e0, e2)[t % 2]
+                k = rng.randrange(n) + 1
+                u = pyref.safe_random_draw(rng, probs) * (0.3 if rng.random() < 0.6 else 1.0)
+                sp = (replay.FLAT_ENCS[t % 3], k - 1) if modes[jm][1] else (replay.VEC_ENCS[t % 3], encode_param(cs, k))
+                rec.step(ee, sp, u)
+            rec.reset(e2)
+            rec.step(e2, (replay.FLAT_ENCS[0], 0) if modes[jm][1] else (replay.VEC_ENCS[0], encode_param(cs, 1)), 0.3)
     if record_draws:
         for e, us in first_draws.items():
             rec.emit(dict(ev="freq", env=e, episodes=len(us), distinct_first_draws=len(set(us))))
